@@ -37,6 +37,7 @@ impl {{MODEL}} {
 {{NEW_REWRITE}}
 //@end
 
+{{EXTRA_FNS}}
 //@fn {{FILE}} {{MODEL}}@Components::subset ret=r
     ensures
         // from the statement: same options, exactly the selected components' parameters
